@@ -20,7 +20,9 @@ RULE = ('formulas over the 12 binary operators + unary minus, operands = cell '
         'the flat token sequence has a different reference value under some '
         'other bracketing (right-assoc, reversed or flat precedence), i.e. '
         'the case can tell trees apart; distinct by (operators in order, '
-        'unary positions, rendering style, assignment)')
+        'unary positions, rendering style, assignment).  A sample of the '
+        'formulas is also evaluated on ONE model whose inputs are re-assigned '
+        'through set_cell_value between evaluations')
 ASSUMPTIONS = [
     'reference evaluator written from the statements of C01/C07/C08/C09 '
     '(vlib/ref.py); never imports xlcalculator',
@@ -29,6 +31,7 @@ ASSUMPTIONS = [
     'finding), 0^0, 0^negative, negative^fraction, overflow',
 ]
 FLOORS = {'evaluate_outcomes': 2000, 'pairs_seen': 144,
+          'reassigned_evaluations': 300,
           'rendering_groups': 500}
 ANCHOR_FUNCS = {
     'xlcalculator/parser.py': ['FormulaParser.shunting_yard',
@@ -181,6 +184,44 @@ class Runner:
                                                        got))
             for grp in groups.values():
                 self.judge(wb, asg, grp)
+        self.reassigned(q, list(by_asg))
+
+    def reassigned(self, q, asgs):
+        """the same compiled formulas under re-assigned inputs: one model, one
+        Evaluator, inputs changed through set_cell_value between evaluations;
+        every evaluation is judged against the reference for the inputs that
+        are current at that moment"""
+        ctx = self.ctx
+        rng = ctx.rng
+        items = [it for it in q if _has_ref(it[0])]
+        if len(items) < 2 or len(asgs) < 2:
+            return
+        items = rng.sample(items, min(len(items), 40))
+        asgs = rng.sample(asgs, min(len(asgs), 3))
+        texts = ['=' + ref.render(it[0], 'minimal') for it in items]
+        series = subject.eval_series(
+            texts, [dict(zip(CELLS, a)) for a in asgs])
+        if series is None:
+            return
+        for step, (asg, outs) in enumerate(zip(asgs, series)):
+            wb = ref.Workbook({('Sheet1', i + 1, 1): v
+                               for i, v in enumerate(asg)})
+            for it, text, got in zip(items, texts, outs):
+                expect = ref_value(wb, it[0])
+                if expect[0] == 'undecided':
+                    continue
+                ctx.event('reassigned_evaluations' if step else
+                          'evaluate_outcomes')
+                if got[0] == 'value' and values_equal(got[1], expect[1]):
+                    continue
+                kf = self.attribute(wb, it[0], got)
+                ctx.fail(f'{text} after re-assigning the inputs to '
+                         f'{dict(zip(CELLS, asg))} (step {step} on one '
+                         f'model): observed {got}, reference {expect[1]}',
+                         {'formula': text, 'assignments_in_order':
+                          [dict(zip(CELLS, a)) for a in asgs[:step + 1]],
+                          'observed': got, 'reference': expect[1]},
+                         kf=kf, monitor='reassigned-inputs')
 
     def judge(self, wb, asg, grp):
         ctx = self.ctx
@@ -292,6 +333,12 @@ class Runner:
                 self.ctx.event('attributed_via_chain')
                 return kfs[active[0]]
         return None
+
+
+def _has_ref(ast):
+    if ast[0] == 'ref':
+        return True
+    return any(_has_ref(x) for x in ast[1:] if isinstance(x, tuple))
 
 
 def ref_features(wb, ast, quirks=()):
